@@ -1,6 +1,7 @@
 import Driver.Codec
 import GldapModel.Generated.Facts
 import GldapModel.Gldap.ControlEncode
+import GldapModel.Gldap.Response
 /-! `gmodel`: one line in, one line out. The Go harness feeds the same cases to the real
     gldap and to this driver and diffs the two output streams. -/
 open Ber Gldap Driver
@@ -42,6 +43,56 @@ def parseControl : List String → Option Control
 
 def parseOptNat (s : String) : Option (Option Nat) := if s == "-" then some none else s.toNat?.map some
 
+def splitNE (s : String) (sep : String) : List String := (s.splitOn sep).filter (· ≠ "")
+
+/-- `name=v1,v2` -/
+def parseAttr (s : String) : Option (Bytes × List Bytes) :=
+  match s.splitOn "=" with
+  | [n, vs] => do
+    let name ← unhex n
+    let vals ← (splitNE vs ",").mapM unhex
+    pure (name, vals)
+  | _ => none
+
+def parseROpt (s : String) : Option ROpt :=
+  match s.splitOn ":" with
+  | ["c", v] => v.toInt?.map .code
+  | ["a", v] => v.toInt?.map .appCode
+  | ["d", v] => (unhex v).map .diag
+  | ["m", v] => (unhex v).map .matched
+  | ["t", v] => ((splitNE v "|").mapM parseAttr).map .attrs
+  | _ => none
+
+def parseRSet (s : String) : Option RSet :=
+  match s.splitOn ":" with
+  | ["c", v] => v.toInt?.map .code
+  | ["d", v] => (unhex v).map .diag
+  | ["m", v] => (unhex v).map .matched
+  | ["k", v] => ((splitNE v "/").mapM (fun d => parseControl (d.splitOn ","))).map .controls
+  | ["t", v] => (parseAttr v).map (fun a => .addAttr a.1 a.2)
+  | _ => none
+
+def doResp (ctor : String) (mid : Int) (dn : Bytes) (opts : List ROpt) (sets : List RSet) : String :=
+  let base : Option (Outcome Resp) :=
+    match ctor with
+    | "general" => some (.ok (newResponse mid opts))
+    | "bind" => some (.ok (newBindResponse mid opts))
+    | "extended" => some (.ok (newExtendedResponse mid opts))
+    | "done" => some (.ok (newSearchDoneResponse mid opts))
+    | "entry" => some (.ok (newSearchResponseEntry mid dn opts))
+    | "modify" => some (newModifyResponse Generated.guards mid opts)
+    | _ => none
+  match base with
+  | none => "bad-input"
+  | some (.ok r) => hex (responseBytes (applySets r sets))
+  | some .err => "err"
+  | some .panic => "panic"
+
+def stripPrefix (s p : String) : Option String := if s.startsWith p then some (s.drop p.length).toString else none
+
+def renderEAttrs (l : List EAttr) : String :=
+  "[" ++ join ";" (l.map fun a => s!"{hex a.name}:{join "," (a.values.map hex)}") ++ "]"
+
 def handle (line : String) : String :=
   match (line.splitOn " ").filter (· ≠ "") with
   | ["ber", h] => match unhex h with
@@ -54,6 +105,26 @@ def handle (line : String) : String :=
   | "ctrlenc" :: rest => match parseControl rest with
     | some c => hex (ser (encodeControl c))
     | none => "bad-input"
+  | "convert" :: hs => match hs.mapM unhex with
+    | some ss => renderOutcome renderHexList (convertString Generated.guards ss)
+    | none => "bad-input"
+  | ["sid2s", h] => match unhex h with
+    | some b => (match sidToString b with | some s => s!"ok {hex s}" | none => "err")
+    | none => "bad-input"
+  | ["sidb", r, a] => match r.toNat?, a.toNat? with
+    | some r, some a => hex (sidBytes r a)
+    | _, _ => "bad-input"
+  | ["newentry", dn, attrs] =>
+    match unhex dn, (splitNE attrs ";").mapM parseAttr with
+    | some dn, some as => s!"{hex (newEntry dn as).1} {renderEAttrs (newEntry dn as).2}"
+    | _, _ => "bad-input"
+  | ["resp", ctor, mid, dn, o, st] =>
+    match mid.toInt?, unhex dn, stripPrefix o "opts=", stripPrefix st "sets=" with
+    | some mid, some dn, some o, some st =>
+      (match (splitNE o ";").mapM parseROpt, (splitNE st ";").mapM parseRSet with
+       | some opts, some sets => doResp ctor mid dn opts sets
+       | _, _ => "bad-input")
+    | _, _, _, _ => "bad-input"
   | ["behera", g, e, c] =>
     match parseOptNat g, parseOptNat e, parseOptNat c with
     | some g, some e, some c => renderOutcome renderControl (newBehera Generated.beheraErrRange g e c)
